@@ -68,6 +68,16 @@ def run_property(pid, tier, seed):
     except extract.ExtractError as ex:
         b = Bundle(pid)
         b.subset_exits.append(f"extraction: {ex}")
+    # executor cross-check against the real code (tool-fault guard)
+    if b.xitems and os.environ.get("TPV_NO_XCHECK") != "1":
+        from tpv import xcheck
+        try:
+            n, mism, skipped = xcheck.run_items(b.xitems, seed, fixed=b.const_values)
+        except Exception as ex:
+            n, mism, skipped = 0, [f"cross-check crashed: {type(ex).__name__}: {ex}"], []
+        b.xcheck = dict(points_checked=n, mismatches=mism[:20], skipped=skipped[:20], functions=len(b.xitems))
+        for mmm in mism[:10]:
+            b.tool_faults.append("executor cross-check: " + mmm)
     t_gen = time.time() - t0
     obs = b.obligations
     # unique ids
@@ -80,6 +90,9 @@ def run_property(pid, tier, seed):
             seen[o.oid] = 0
     results = discharge_all(obs, tier) if obs else []
     t_solve = time.time() - t0 - t_gen
+    vac, cover_stats = cover_check(obs, results)
+    for v in vac:
+        b.tool_faults.append(f"vacuous clause (hypotheses unsatisfiable on every path): {v}")
     known = [k for k in load_known() if k["property"] == pid]
     lines = []
     violations = []
@@ -157,7 +170,7 @@ def run_property(pid, tier, seed):
         functions_under_contract=list(b.functions.values()),
         paths_explored=b.stats["paths"], paths_pruned=b.stats["pruned"],
         bounded_stand_ins=b.bounded, canaries=b.canaries, subset_exits=b.subset_exits, tool_faults=b.tool_faults,
-        baseline_missing=missing, samples=samples, notes=b.notes,
+        baseline_missing=missing, samples=samples, notes=b.notes, cover_check=cover_stats, executor_cross_check=b.xcheck,
         undecided_obligations=[dict(obligation=o.oid, reason=(r.get("reason") or "")[:300]) for o, r in undecided][:50],
         known_findings_hit=[dict(obligation=o.oid, what=k["what"]) for o, r, k in known_hits],
         explanation=b.explanation or "contract obligations generated from the current /repo source and discharged per obligation",
@@ -185,6 +198,55 @@ def run_property(pid, tier, seed):
         for s in b.tool_faults[:10]:
             print(f"  TOOL-FAULT {s}")
     return status, obs, results
+
+
+def _cover_one(i):
+    import sympy as sp
+    from tpv import backends as B
+    o = _COVER[i]
+    try:
+        r = B.z3_check(list(o.hyps) + [sp.Gt(x, 0) for x in o.positive] + [sp.Eq(l ** d, rhs) for l, d, rhs in o.rels], sp.false, timeout_s=3)
+    except Exception:
+        return i, "unknown"
+    return i, {"discharged": "unsat", "refuted": "sat"}.get(r["verdict"], "unknown")
+
+
+_COVER = []
+
+
+def cover_check(obs, results):
+    """vacuity guard: every contract clause (obligations grouped by id without the @path suffix) must have at least
+    one instance whose hypotheses are satisfiable (z3 sat; unknown counts as satisfiable)."""
+    global _COVER
+    import multiprocessing as mp
+    groups = {}
+    for i, (o, r) in enumerate(zip(obs, results)):
+        if o.decided is not None or r["verdict"] != "discharged" or r["backend"] == "syntactic" and not o.hyps:
+            continue
+        g = re.sub(r"@paths?[0-9x]+", "", o.oid)
+        groups.setdefault(g, []).append(i)
+    _COVER = obs
+    vac = []
+    checked = 0
+    todo = {g: list(ix) for g, ix in groups.items()}
+    covered = set()
+    ctx = mp.get_context("fork")
+    with ctx.Pool(int(os.environ.get("TPV_WORKERS", "16"))) as pool:
+        rounds = 0
+        while todo and rounds < 400:
+            rounds += 1
+            batch = [(g, ix.pop(0)) for g, ix in todo.items()]
+            res = pool.map(_cover_one, [i for _, i in batch])
+            checked += len(batch)
+            for (g, i), (_, st) in zip(batch, res):
+                if st != "unsat":
+                    covered.add(g)
+            todo = {g: ix for g, ix in todo.items() if g not in covered and ix}
+            for g in list(groups):
+                if g not in covered and g not in todo:
+                    if g not in vac:
+                        vac.append(g)
+    return vac, dict(clauses=len(groups), cover_queries=checked)
 
 
 def write_baseline(pid, obs, results):
